@@ -262,10 +262,17 @@ def run_impl(h):
             return None
         return ttl_q // q if ttl_q % q == 0 else ttl_q / q
     ttl = seconds(cfg['ttl_q'])
+    if cfg.get('int_ts'):
+        # explicit timestamps are handed in as Python ints (a caller stamping in epoch nanoseconds: beyond 2**53, where
+        # neighbouring ints collapse to one float) -- they are compared and stored exactly, as the model does
+        stamp = lambda x: int(base) + x // q
+    else:
+        stamp = lambda x: float(base) + x / q
     out = []
     cur = {'events': [], 'deliv': [], 'live': True, 'raised': [], 'raised_obj': None}
     foreign_before = _FOREIGN['n']
     rules = [tuple(r) for r in cfg.get('beh') or []]
+    shared = set(cfg.get('shared') or [])      # callback numbers that are ONE callable for all their events
 
     def behaviour(cb, ev, mmsi):
         for c, e2, m, x in rules:
@@ -284,6 +291,18 @@ def run_impl(h):
     def callback(cb, ev):
         # one Python callable per (callback number, event it is registered for): the callable only receives the
         # track, so this is how it knows the event (register/remove identify a subscriber by the pair anyway)
+        if cb in shared:
+            # ONE Python callable registered for several events (a handler that logs every life-cycle event): it only
+            # receives the track, so it takes the event from the monitor that was called just before it in the same
+            # propagation (the monitors are registered first, for all three events)
+            if (cb, None) not in cbs:
+                def g(track, cb=cb):
+                    if not cur['live']:
+                        _FOREIGN['n'] += 1
+                        return
+                    cur['deliv'].append((cb, cur['events'][-1][0] if cur['events'] else '?', snap(track)))
+                cbs[(cb, None)] = g
+            return cbs[(cb, None)]
         if (cb, ev) not in cbs:
             letter = {v: k for k, v in MON.items()}.get(cb)
 
@@ -318,7 +337,7 @@ def run_impl(h):
                     if op[3] is None:
                         tracker.update(obj)
                     else:
-                        tracker.update(obj, float(base) + op[3] / q)
+                        tracker.update(obj, stamp(op[3]))
                 elif k == 'C':
                     clock.t = float(base) + op[1] / q
                     tracker.cleanup()
@@ -337,7 +356,7 @@ def run_impl(h):
                 elif k == 'I':
                     clock.t = float(base) + op[1] / q
                     dec = e.build(op[2])[0].decode()
-                    tracker.insert_or_update(int(dec.mmsi), e.pt.msg_to_track(dec, None if op[3] is None else float(base) + op[3] / q))
+                    tracker.insert_or_update(int(dec.mmsi), e.pt.msg_to_track(dec, None if op[3] is None else stamp(op[3])))
                 elif k == 'T':
                     tracker.ttl_in_seconds = seconds(op[1])
                 elif k == 'M':
@@ -1350,6 +1369,47 @@ def directed_public(rng):
     return hs
 
 
+def directed_int_stamps(rng):
+    """Timestamps handed in as ints beyond 2**53 (epoch nanoseconds): neighbouring values differ by less than the spacing
+    of binary64 there (256), so a tracker that turns them into floats can no longer tell older from newer or equal.  Only
+    explicit timestamps, no TTL (the clock is a float and plays no part)."""
+    hs = []
+    A, B, C = MMSIS[0], MMSIS[1], MMSIS[2]
+    for ordered in (False, True):
+        for base in (1673259271123456789, 2 ** 62 + 1):
+            ra, rb, rc = real_message(rng, A, 1), real_message(rng, B, 5), real_message(rng, C, 18)
+            ra2 = real_message(rng, A, 1)
+            mk = lambda ops: {'cfg': {'ordered': ordered, 'ttl_q': None, 'base': base, 'q': 1, 'int_ts': True},
+                              'ops': [list(o) for o in MON_OPS] + ops}
+            # older than its own track by less than one float spacing: rejected in both modes, nothing changes
+            hs.append(mk([['U', 0, ra, 100], ['U', 0, ra2, 60], ['G', A], ['U', 0, ra2, 99], ['G', A], ['U', 0, ra2, 100], ['U', 0, ra, 101],
+                          ['G', A], ['L', 2]]))
+            # two vessels 40 apart: ordered rejects the older one, unordered sorts them by the exact values
+            hs.append(mk([['U', 0, ra, 100], ['U', 0, rb, 140], ['U', 0, rc, 139], ['L', 1], ['L', 2], ['U', 0, ra, 139], ['L', 3],
+                          ['U', 0, ra, 141], ['L', 1], ['P', B], ['U', 0, rb, 141], ['U', 0, rb, 140], ['L', 3]]))
+            hs.append(mk([['I', 0, ra, 7], ['I', 0, rb, 8], ['I', 0, ra, 9], ['U', 0, rc, 9], ['U', 0, rb, 8], ['U', 0, rb, 7],
+                          ['U', 0, ra, 8], ['G', A], ['G', B], ['L', 3]]))
+    return hs
+
+
+def directed_shared_callable(rng):
+    """One callable registered for two or three events (registered after the monitors): a subscriber is the PAIR (event,
+    callable), so it is owed every event of each kind it is registered for, and removing one pair leaves the others."""
+    hs = []
+    A, B = MMSIS[0], MMSIS[1]
+    for ordered in (False, True):
+        ra, rb = real_message(rng, A, 1), real_message(rng, B, 5)
+        mk = lambda ops, ttl=None: {'cfg': {'ordered': ordered, 'ttl_q': ttl, 'base': 0, 'shared': [10, 11]},
+                                    'ops': [list(o) for o in MON_OPS] + ops}
+        life = [['U', 0, ra, 0], ['U', 0, ra, 1], ['P', A], ['U', 0, ra, 2], ['U', 0, rb, 2], ['P', A]]
+        hs.append(mk([['A', 'c', 10], ['A', 'u', 10], ['A', 'd', 10]] + life))
+        hs.append(mk([['A', 'd', 10], ['A', 'c', 10]] + life + [['D', 'c', 10], ['U', 0, ra, 3], ['P', A], ['A', 'u', 10], ['U', 0, rb, 3]]))
+        hs.append(mk([['A', 'u', 10], ['A', 'u', 11], ['A', 'd', 11], ['A', 'c', 10]] + life + [['D', 'u', 10], ['U', 0, rb, 4], ['D', 'd', 11],
+                      ['P', B], ['U', 0, rb, 5], ['U', 0, rb, 6]]))
+        hs.append(mk([['A', 'c', 10], ['A', 'd', 10], ['U', 0, ra, 0], ['U', 4, rb, 4], ['C', 13], ['D', 'c', 10], ['U', 16, ra, 16], ['C', 40]], 12))
+    return hs
+
+
 def directed_extreme_mmsi(rng):
     """The vessel with MMSI 0 (a falsy key) and the one with the largest MMSI: created, updated, expired next to an
     ordinary vessel, popped by int and by numeric string."""
@@ -1480,7 +1540,7 @@ def run_common(ctx, prop):
     hs = directed_histories(rng)
     if raising:
         hs += directed_raising(rng)
-    hs += directed_reregistration(rng) + directed_extreme_mmsi(rng) + directed_public(rng)
+    hs += directed_reregistration(rng) + directed_extreme_mmsi(rng) + directed_public(rng) + directed_int_stamps(rng) + directed_shared_callable(rng)
     if with_q:
         hs = [add_queries(h) for h in hs]
     # the configuration changes during the history (new TTL, ordered -> unordered); very many tracks due at once
